@@ -18,6 +18,7 @@ type options struct {
 	timeoutMs                    int
 	sweepPkgs                    string
 	dumpOnly                     bool
+	base, outBase                string
 }
 
 func main() {
@@ -88,7 +89,17 @@ func run(o options) int {
 		results = append(results, verifyLemma(w, lm))
 	}
 	genT := time.Since(start) - loadT
-	outDir := filepath.Join(o.verif, "out", "smt", o.prop)
+	// A run against /repo itself owns /verif/evidence, /verif/replays and
+	// /verif/out; a run against a scratch copy (--repo DIR, used by the seeded
+	// changes and the self-test) or restricted to some functions writes under
+	// /verif/out/scratch/<pid> and never touches the evidence of /repo.
+	o.base = o.verif
+	o.outBase = filepath.Join(o.verif, "out")
+	if filepath.Clean(o.repo) != "/repo" || o.fn != "" {
+		o.base = filepath.Join(o.verif, "out", "scratch", fmt.Sprint(os.Getpid()))
+		o.outBase = o.base
+	}
+	outDir := filepath.Join(o.outBase, "smt", o.prop)
 	os.RemoveAll(outDir)
 	os.MkdirAll(outDir, 0o755)
 	if o.dumpOnly {
@@ -235,7 +246,7 @@ func report(o options, w *World, results []*FuncResult, missing []string, start 
 	}
 	exit := 0
 	violations := 0
-	replayDir := filepath.Join(o.verif, "replays")
+	replayDir := filepath.Join(o.base, "replays")
 	os.MkdirAll(replayDir, 0o755)
 	var knownLines []string
 	nKnown := 0
@@ -259,7 +270,7 @@ func report(o options, w *World, results []*FuncResult, missing []string, start 
 		exit = 1
 	}
 	for _, ob := range failed {
-		if k := kf.match(o.prop, ob.Name); k != nil && outsideRegion(ob, k, filepath.Join(o.verif, "out", "smt", o.prop), o.timeoutMs) {
+		if k := kf.match(o.prop, ob.Name); k != nil && outsideRegion(ob, k, filepath.Join(o.outBase, "smt", o.prop), o.timeoutMs) {
 			knownLines = append(knownLines, fmt.Sprintf("KNOWN-FINDING: property=%s obligation=%s input=%s %s", o.prop, ob.Name, k.Input, k.What))
 			k.seen = true
 			nKnown++
@@ -336,8 +347,8 @@ func report(o options, w *World, results []*FuncResult, missing []string, start 
 			ev.Coverage[k] = v
 		}
 	}
-	os.MkdirAll(filepath.Join(o.verif, "evidence"), 0o755)
-	writeJSON(filepath.Join(o.verif, "evidence", o.prop+".json"), ev)
+	os.MkdirAll(filepath.Join(o.base, "evidence"), 0o755)
+	writeJSON(filepath.Join(o.base, "evidence", o.prop+".json"), ev)
 	fmt.Printf("govc: property=%s functions=%d obligations=%d discharged=%d failed=%d known=%d wall=%.1fs (load %.1fs, vcgen %.1fs, solver %.1fs cpu)\n",
 		o.prop, len(funcs), total, discharged, len(failed)-nKnown, nKnown, wall, loadT.Seconds(), genT.Seconds(), float64(solverMs)/1000)
 	return exit
